@@ -1085,7 +1085,8 @@ def o_hist(case):
     side = case["side"]
     tab = table(side)
     with NowHook():
-        r = fresh_like(side, case["init"]) if side == "resp" else fresh_like(side, case["init"])
+        r = fresh_like(side, case["init"])
+        sticky = None
         for i, o in enumerate(case["ops"]):
             before = store_of(side, r)
             twin = fresh_like(side, before)
@@ -1093,6 +1094,17 @@ def o_hist(case):
             res2 = apply_hist_op(side, twin, o)
             after, after2 = store_of(side, r), store_of(side, twin)
             where = "step %d %r on the long-lived %s" % (i, o, "Response" if side == "resp" else "Request")
+            if side == "req" and o[0] == "get" and o[1] == "charset":
+                # the one documented per-object memory (property C01: "the request charset is fixed at first use"):
+                # the FIRST read on this wrapper must be what a fresh wrapper answers; every later read repeats it,
+                # whatever CONTENT_TYPE has become meanwhile (a brand-new Request may then answer differently)
+                if sticky is None:
+                    sticky = [res]
+                else:
+                    if res != sticky[0]:
+                        return ("stateful:req:charset:not-fixed-at-first-use",
+                                "%s gives %r, but this wrapper's first read gave %r" % (where, res, sticky[0]))
+                    res2 = res
             if res != res2:
                 return ("stateful:%s:%s:answer-differs" % (side, o[1] if o[0] != "raw" and len(o) > 1 else "raw"), "%s gives %r, a fresh object over the same %s gives %r"
                         % (where, res, "header list" if side == "resp" else "environ", res2))
